@@ -284,8 +284,8 @@ def libm(s, st, name, a):
         r = s.uf('libm_' + name, len(a))(*X)
         st.apps.append((name, tuple(X), r))
         return ('f', r)
-    # ---- real mode
-    X = [s.fz(x) for x in a]; x = X[0]
+    # ---- real mode (arguments in sum-of-monomials normal form so that equal arguments are syntactically equal)
+    X = [z3.simplify(s.fz(x), som=True) if not isinstance(x[1], float) else s.fz(x) for x in a]; x = X[0]
     if name == 'fabs': return ('f', z3.If(x < 0, -x, x))
     if name == 'floor': return ('f', z3.ToReal(z3.ToInt(x)))
     if name == 'ceil': return ('f', -z3.ToReal(z3.ToInt(-x)))
